@@ -88,7 +88,7 @@ struct EmcyRun : NodeEnv {
 
 Plan gen_emcy(Rng &r, bool thorough) {
     Plan p; p.cfg["nodeid"] = r.pick<int64_t>({1, 5, 127}); bool deep = r.chance(1, 25); p.cfg["depth"] = deep ? r.pick<int64_t>({129, 200, 254, 128}) : r.range(1, 8);   // CiA 301 allows up to 254 entries p.cfg["cobvalid"] = r.chance(5, 6);
-    int ne = (int)r.range(1, 6); bool shared = r.chance(1, 2);
+    int ne = r.chance(1, 5) ? (int)r.pick<int64_t>({9, 17, 25, 32}) : (int)r.range(1, 6); bool shared = r.chance(1, 2);   // tables that span several bytes of the error storage (builds with a small CO_EMCY_N cut them)
     for (int i = 0; i < ne; i++) p.ops.push_back(Op("err", {shared ? r.pick<int64_t>({1, 1, 2, 0, 4}) : r.range(0, 7), (int64_t)(0x1000 * (1 + r.below(15)) + r.below(256))}));
     int n = (int)r.range(3, thorough ? 60 : 30);
     for (int i = 0; i < n; i++) {
